@@ -285,6 +285,13 @@ def D3_angle_styles(repo, clause):
         raise AnalysisError("D3: membership test on the literal angle list not found in angle_params")
     t, tt, pol = tests[0]
     in_branch = t.body if pol else t.orelse
+    raw = expand(fn, tt.left)
+    is_lookup = isinstance(raw, ast.Subscript) and isinstance(raw.value, ast.Subscript) and ast.unparse(raw.value.value) == "UFF4MOF"
+    wrapped = isinstance(raw, ast.Call) and call_name(raw) in ("int", "round", "floor", "ceil", "rint")
+    obs.append(Ob("D3", clause, fn, t, is_lookup,
+                  "the potential style is decided on the tabulated equilibrium angle itself (%s)%s" % (
+                      ast.unparse(raw)[:50], " -- a ROUNDED value is tested: angles near 90/120/180 (e.g. 90.25) change style" if wrapped else ""),
+                  slot="style-test-on-raw-angle", positive=wrapped))
     var = ast.unparse(tt.left)
     lits = [const_value(e) for e in tt.comparators[0].elts]
     chain = [s for s in in_branch if isinstance(s, ast.If)]
